@@ -207,6 +207,166 @@ def pattern_matches(pat, v):
     return None
 
 
+def _tag_value(t, rd_tag):
+    """Is the term the dispatched byte (the result of read_tag, possibly cast / awaited / unwrapped)?"""
+    while isinstance(t, tuple) and (t[0] in ("ok?", "await") or t[0] == "cast"):
+        t = t[1] if t[0] != "cast" else t[2]
+    return is_call(t) and t[1].endswith("::read_tag")
+
+
+def _eval_num(t, v, F):
+    if _tag_value(t, None):
+        return v
+    if isinstance(t, tuple) and t[0] == "lit" and isinstance(t[1], int) and not isinstance(t[1], bool):
+        return t[1]
+    if isinstance(t, tuple) and t[0] == "cast":
+        return _eval_num(t[2], v, F)
+    if isinstance(t, tuple) and t[0] == "def":
+        c = F.consts.get(t[1])
+        return c.get("value") if (c and isinstance(c.get("value"), int)) else None
+    if isinstance(t, tuple) and t[0] == "ctor" and not t[2]:
+        for adt in F.adts.values():
+            for vr in adt.get("variants", []):
+                if vr.get("path") == t[1] and vr.get("discr") is not None:
+                    return vr["discr"]
+    return None
+
+
+def _eval_tag_cond(t, v, F):
+    """Truth of a condition term for tag byte v; None = not understood; 'n/a' = does not depend on the tag."""
+    if is_call(t, "<is_err>") or not any(_tag_value(x, None) for x in subterms(t)):
+        return "n/a"
+    for x in subterms(t):
+        # a test on something computed *from* the tag by the crate (parse_delimiter(tag) == End) is not a test of the byte itself
+        if is_call(x) and not x[1].endswith("::read_tag") and x[1].split("::")[-1] not in ("contains", "new") and not x[1].startswith(("core::", "std::ops::", "std::cmp::")):
+            return "n/a"
+    if isinstance(t, tuple) and t[0] == "lit" and isinstance(t[1], bool):
+        return t[1]
+    if isinstance(t, tuple) and t[0] == "un" and t[1] == "Not":
+        r = _eval_tag_cond(t[2], v, F)
+        return (not r) if isinstance(r, bool) else r
+    if isinstance(t, tuple) and t[0] == "bin" and t[1] in ("And", "Or", "BitAnd", "BitOr"):
+        a, b = _eval_tag_cond(t[2], v, F), _eval_tag_cond(t[3], v, F)
+        if not isinstance(a, bool) or not isinstance(b, bool):
+            return None
+        return (a and b) if t[1] in ("And", "BitAnd") else (a or b)
+    if isinstance(t, tuple) and t[0] == "bin" and t[1] in ("Eq", "Ne", "Lt", "Le", "Gt", "Ge"):
+        a, b = _eval_num(t[2], v, F), _eval_num(t[3], v, F)
+        if a is None or b is None:
+            return None
+        return {"Eq": a == b, "Ne": a != b, "Lt": a < b, "Le": a <= b, "Gt": a > b, "Ge": a >= b}[t[1]]
+    if is_call(t) and t[1].split("::")[-1] == "contains" and len(t[2]) == 2 and is_call(t[2][0]) and t[2][0][1].split("::")[-1] == "new" and len(t[2][0][2]) == 2:
+        lo, hi, x = _eval_num(t[2][0][2][0], v, F), _eval_num(t[2][0][2][1], v, F), _eval_num(t[2][1], v, F)
+        if None in (lo, hi, x):
+            return None
+        if "RangeInclusive" in t[2][0][1]:
+            return lo <= x <= hi
+        return None
+    if is_call(t) and t[1].split("::")[-1] == "contains" and len(t[2]) == 2 and isinstance(t[2][0], tuple) and t[2][0][0] == "ctor" and isinstance(t[2][0][2], dict) and \
+            t[2][0][1].endswith("::Range") and set(t[2][0][2]) == {"start", "end"}:
+        lo, hi, x = _eval_num(t[2][0][2]["start"], v, F), _eval_num(t[2][0][2]["end"], v, F), _eval_num(t[2][1], v, F)
+        return None if None in (lo, hi, x) else (lo <= x < hi)
+    return None
+
+
+def dispatch_by_paths(run, F, pty, fn, b, rule):
+    """The partition of the 256 tag bytes read off the paths of one iteration of the drive loop: for every byte, the paths whose tag tests
+    hold for it must all do the same thing - hand it to parse_delimiter (0x01-0x05), read a name and a value (0x10-0x4a), or reject it
+    with InvalidTag(that byte)."""
+    short = pty.split("::")[-1]
+    steps, seen = [], set()
+    try:
+        ps = paths_of(b)
+    except TooManyPaths:
+        run.ob(rule, "%s: tag dispatch found" % short, False, "too many paths", site(b), key="%s|%s|no-dispatch" % (rule, fn))
+        return 0
+    for p in ps:
+        for i, t in enumerate(p.trace):
+            if is_call(t, "<loop>", "<for>") and len(t) > 3 and isinstance(t[3], dict):
+                if id(t[3]) not in seen:
+                    seen.add(id(t[3]))
+                    for q in t[3].get("paths", []) + t[3].get("breaks", []):
+                        steps.append((q.conds, q.trace, q.ret, "fall"))
+                if p.kind in ("try", "return", "fall"):
+                    steps.append((p.conds, p.trace[i + 1:], p.ret, p.kind))
+    steps = [s_ for s_ in steps if any(is_call(t) and t[1].endswith("::read_tag") for t in s_[1])]
+    if not steps:
+        run.ob(rule, "%s: tag dispatch found" % short, False, "no iteration path reads a tag", site(b), key="%s|%s|no-dispatch" % (rule, fn))
+        return 0
+
+    def cls(st):
+        conds, trace, ret, kind = st
+        names = [t[1] for t in trace if is_call(t)]
+        if any(x.endswith("ParserState::parse_delimiter") for x in names):
+            return "delimiter"
+        if any(x.endswith(("::read_name", "::read_value", "ParserState::parse_value")) or x.endswith("Parser::<R>::parse_value") for x in names):
+            return "value"
+        if isinstance(ret, tuple) and ret[0] == "ctor" and ret[1].endswith("::Err") and ret[2] and isinstance(ret[2][0], tuple) and ret[2][0][0] == "ctor" and \
+                ret[2][0][1] == "ipp::parser::IppParseError::InvalidTag":
+            return "reject" if (ret[2][0][2] and _tag_value(ret[2][0][2][0], None)) else "reject-other-byte"
+        if kind == "try" and isinstance(ret, tuple) and ret[0] == "err?" and is_call(ret[1] if ret[1][0] != "await" else ret[1][1]) and \
+                (ret[1] if ret[1][0] != "await" else ret[1][1])[1].endswith("::read_tag"):
+            return "io-error"
+        return "other"
+    table, unknown = {}, None
+    for v in range(256):
+        got = set()
+        for st in steps:
+            holds = True
+            for c in st[0]:
+                if c[0] in ("if", "guard"):
+                    r = _eval_tag_cond(c[1], v, F)
+                    if r == "n/a":
+                        continue
+                    if r is None:
+                        unknown = cshow(c)
+                        break
+                    if r != bool(c[2]):
+                        holds = False
+                        break
+                elif c[0] == "match" and _tag_value(c[1], None):
+                    r = pattern_matches(c[4], v)
+                    if r is None:
+                        unknown = cshow(c)
+                        break
+                    if c[3] is False:
+                        r = not r
+                    elif len(c) > 8 and c[8]:
+                        er = [pattern_matches(q, v) for q in c[8]]
+                        if any(x is None for x in er):
+                            unknown = cshow(c)
+                            break
+                        r = r and not any(er)
+                    if not r:
+                        holds = False
+                        break
+            if unknown:
+                break
+            if holds:
+                k_ = cls(st)
+                if k_ != "io-error":
+                    got.add(k_)
+        if unknown:
+            break
+        table[v] = got
+    if unknown:
+        run.ob(rule, "%s: dispatch patterns are literal ranges" % short, False,
+               "a tag test on an iteration path is not understood (%s): the partition of the 256 tag bytes cannot be read off" % unknown[:160], site(b),
+               key="%s|%s|unreadable" % (rule, fn))
+        return 0
+    want = {v: ("delimiter" if 1 <= v <= 5 else ("value" if 0x10 <= v <= 0x4a else "reject")) for v in range(256)}
+    bad = [(hex(v), sorted(table[v]), want[v]) for v in range(256) if table[v] != {want[v]}]
+    run.ob(rule, "%s: 0x01-0x05 delimiter, 0x10-0x4a value, everything else rejected with its own byte" % short, not bad,
+           "%d bytes classified differently, e.g. %s (byte, got, expected)" % (len(bad), bad[:4]), site(b), key="%s|%s|partition" % (rule, fn))
+    for enum, k_ in (("ipp::model::DelimiterTag", "delimiter"), ("ipp::model::ValueTag", "value")):
+        adt = F.adts.get(enum)
+        if adt:
+            out = [vr["name"] for vr in adt["variants"] if table.get(vr["discr"]) != {k_}]
+            run.ob(rule, "%s: every %s is dispatched as %s" % (short, enum.split("::")[-1], k_), not out, "variants outside: %s" % out, site(b),
+                   key="%s|%s|enum-%s" % (rule, fn, k_))
+    return 256
+
+
 def r_dispatch(run, F, rule="R-DISPATCH"):
     """Partition of all 256 tag bytes by the drive loops' match."""
     n = 0
@@ -232,7 +392,8 @@ def r_dispatch(run, F, rule="R-DISPATCH"):
                 if direct or via_let:
                     m = x
         if m is None:
-            run.ob(rule, "%s: tag dispatch found" % pty.split("::")[-1], False, "no match on read_tag()", site(b), key="%s|%s|no-dispatch" % (rule, fn))
+            # not written as one match: read the partition off the paths of one iteration instead, byte by byte
+            n += dispatch_by_paths(run, F, pty, fn, b, rule)
             continue
         arms = []
         for arm in m["arms"]:
@@ -419,7 +580,8 @@ def r_stop_onlyexit(run, F, rule_stop="R-STOP", rule_exit="R-ONLYEXIT"):
             if b is None:
                 run.anchor_lost(rule_stop, "%s::%s" % (rty, name))
                 continue
-            r = paths_of(b)[0].ret
+            ii = F.body("%s::<R>::into_inner" % rty)
+            r = paths_of(b, inline={"%s::<R>::into_inner" % rty: ii} if (ii is not None and name != "into_inner") else None)[0].ret     # into_payload through into_inner: inlined
             src = ("field", ("var", "self"), "inner")
             ok = (r == src) if want is None else (is_call(r, want) and r[2][0] == src)
             run.ob(rule_stop, "%s::%s hands over the source unchanged" % (rty.split("::")[-1], name), ok, tshow(r)[:120], site(b), key="%s|%s::%s" % (rule_stop, rty, name))
@@ -513,7 +675,12 @@ def r_propagate(run, F, rule="R-PROPAGATE"):
                 # a Result-typed receiver consumed by a non-propagating method is the swallow
                 stack.append((n["recv"], rctx if result_err(unwrap(n["recv"]).get("ty")) or True else "receiver"))
                 for a in n["args"]:
-                    stack.append((a, "argument"))
+                    ax = unwrap(a)
+                    if name in ("and_then", "or_else") and ctx in ("try", "tail", "pass") and ax.get("k") == "closure":
+                        # `x.and_then(|v| f(v))`: what the closure returns is what and_then returns - propagated when and_then's result is
+                        stack.append((ax["body"], "pass"))
+                    else:
+                        stack.append((a, "argument"))
                 continue
             if k == "call":
                 for a in n.get("args", []):
@@ -634,7 +801,8 @@ def r_lossy(run, F, rule="R-LOSSY"):
             run.anchor_lost(rule, rd + "read_name")
             continue
         rs = F.body(rd + "read_string")         # the private text helper, judged inlined whether or not it exists as a function of its own
-        for p in paths_of(b, inline={rd + "read_string": rs} if rs is not None else None):
+        sib_ = {k_: v_ for k_, v_ in ((rd + "read_string", rs), (rd + "read_value", F.body(rd + "read_value"))) if v_ is not None}
+        for p in paths_of(b, inline=sib_ or None):
             if p.kind == "try" or (p.ret[0] == "ctor" and p.ret[1].endswith("::Err")):
                 continue
             m = mentions(p.ret)
